@@ -46,7 +46,8 @@ def expectWrap (cls innerOp : String) (ev : OpEval) : OpEval :=
   { needs := ev.needs
     run := fun crit impl =>
       let v := ev.run crit impl
-      let allow := if innerOp == "qci" then ["sort", "capacity"] else if innerOp == "wilson" then ["stats_new"] else []
+      let allow := if innerOp == "qci" then ["sort", "capacity"] else if innerOp == "wilson" then ["stats_new"]
+                   else if innerOp == "relto" then ["relative_to"] else []
       let sane := impl.flatMap (saneGroup allow)
       let first := impl.head?.getD []
       let c := outcomeClass first
@@ -95,7 +96,12 @@ partial def evalLine0 (prop op : String) (args : List String) : Option OpEval :=
                 | none =>
                   match critOps op ty rest with
                   | some e => some e
-                  | none => serOps op ty rest
+                  | none =>
+                    match serOps op ty rest with
+                    | some e => some e
+                    | none =>
+                      -- interval operations reached from another property (C11: documented panics of `relative_to`)
+                      (intervalOp op ty rest).map fun m => { run := fun _ _ => { model := m.map Tok.s } }
 
 end
 
